@@ -21,7 +21,7 @@ const VERBS: &[(&str, usize)] = &[
     ("DIE", 1),
 ];
 
-const STATE_NAMES: &[&str] = &["unregistered", "alone", "founder", "member", "ranked", "ircop", "last_member"];
+const STATE_NAMES: &[&str] = &["unregistered", "alone", "founder", "member", "ranked", "ircop", "last_member", "refused_at_completion"];
 
 fn shape_name(i: usize) -> &'static str {
     [
@@ -267,7 +267,7 @@ impl Check for C05 {
         ]
     }
     fn probes(&self) -> Vec<&'static str> {
-        vec!["fault.fragmented_send", "fault.pipelined_segment", "fault.slow_reader", "fault.short_reads", "net.writer_blocked", "net.short_reads", "mut.bitflip", "mut.pad_to_limit", "sender_closed_excused", "probe_privmsg_ok", "state.ircop", "state.unregistered"]
+        vec!["fault.fragmented_send", "fault.pipelined_segment", "fault.slow_reader", "fault.short_reads", "net.writer_blocked", "net.short_reads", "mut.bitflip", "mut.pad_to_limit", "sender_closed_excused", "probe_privmsg_ok", "state.ircop", "state.unregistered", "state.refused_at_completion"]
     }
 
     fn gen(&self, run_seed: u64, _idx: u64, _tier: Tier) -> Trace {
@@ -275,7 +275,7 @@ impl Check for C05 {
         let cfg = C05::config(&mut r.fork(1));
         let pass = cfg.password.clone();
         let mut a = vec![];
-        let state = r.below(7);
+        let state = r.below(8);
         let fz_ip = ["10.0.0.3", "10.0.0.3", "::1", "2001:db8::17"][r.below(4)];
         a.push(Action::Open { ip: "10.0.0.1".into() });
         a.push(Action::Open { ip: "10.0.0.2".into() });
@@ -314,6 +314,21 @@ impl Check for C05 {
                 }
                 if state == 5 {
                     say(&mut a, FZ, "OPER root rootpw");
+                }
+            }
+            7 => {
+                // the fuzzing connection claimed a nick, somebody else registered it first, its own completion is refused
+                if let Some(p) = &pass {
+                    say(&mut a, FZ, &format!("PASS {}", p));
+                }
+                say(&mut a, FZ, "NICK by1");
+                say(&mut a, FZ, "NICK late");
+                a.push(Action::Open { ip: "10.0.0.4".into() });
+                reg(&mut a, 3, "late", &pass);
+                say(&mut a, FZ, "USER fz 0 * :Real fz");
+                say(&mut a, B1, "JOIN #mix");
+                if r.chance(1, 2) {
+                    say(&mut a, FZ, "NICK fz");
                 }
             }
             _ => {
